@@ -15,6 +15,7 @@ let mtype_of_char = function
 let ints s = List.map int_of_string (String.split_on_char '.' s)
 let rest s = String.sub s 1 (String.length s - 1)
 
+let bind_serial = ref 0
 let rec parse_op (s : string) : op =
   if s = "" || s = "-" then ONop else
   match s.[0] with
@@ -40,9 +41,13 @@ let rec parse_op (s : string) : op =
      | i :: kind :: mask :: r :: acts ->
        let acts = String.concat "." acts in
        let ops = List.map parse_op (List.filter (fun x -> x <> "") (String.split_on_char ',' acts)) in
-       OBind (pos_of_idx (int_of_string i), kind = "k", z_of_int (int_of_string ("0x" ^ mask)),
+       let id = !bind_serial in
+       incr bind_serial;
+       OBind (pos_of_idx (int_of_string i), z_of_int id, kind = "k", z_of_int (int_of_string ("0x" ^ mask)),
               int_of_string r <> 0, ops)
      | _ -> failwith "bind")
+  | 'U' -> (match ints (rest s) with [i; n] -> OUnbind (pos_of_idx i, z_of_int n) | _ -> failwith "unbind")
+  | 'y' -> OGeom (pos_of_idx (int_of_string (rest s)))
   | _ -> failwith ("op " ^ s)
 
 let join sep l = if l = [] then "-" else String.concat sep l
@@ -72,7 +77,9 @@ let string_of_op = function
   | OFlush w -> Printf.sprintf "f%d" (idx_of_pos w)
   | OKey -> "k"
   | OMouse t -> Printf.sprintf "m%c" (mtype_char t)
-  | OBind (w, _, _, _, _) -> Printf.sprintf "b%d" (idx_of_pos w)
+  | OBind (w, _, _, _, _, _) -> Printf.sprintf "b%d" (idx_of_pos w)
+  | OUnbind (w, n) -> Printf.sprintf "U%d.%d" (idx_of_pos w) (int_of_z n)
+  | OGeom w -> Printf.sprintf "y%d" (idx_of_pos w)
   | ONop -> "-"
 let trace_str (h : heap) = join "," (List.rev_map string_of_op h.tr)
 
@@ -101,6 +108,7 @@ let fault_name = function UAF -> "UAF" | NullDeref -> "NULL" | OOB -> "OOB" | Ab
 let rec int_of_nat = function O -> 0 | S n -> 1 + int_of_nat n
 
 let model_W variant toks =
+  bind_serial := 0;
   let ops = List.map parse_op toks in
   match run_script variant fuel ops with
   | VOk h -> dump h
@@ -200,10 +208,11 @@ let oracle line =
         | None -> "BAD no-trace"
         | Some tr ->
           let ops = if tr = "-" then [] else
-              List.map (fun t -> if t.[0] = 'b' then OBind (pos_of_idx (int_of_string (rest t)), true, Z0, false, [])
+              List.map (fun t -> if t.[0] = 'b' then OBind (pos_of_idx (int_of_string (rest t)), Z0, true, Z0, false, [])
                          else parse_op t) (String.split_on_char ',' tr) in
           (* cross-check of the two formulations of the client's side: what the heap-independent
              discipline accepts must satisfy the hypothesis of the proved theorems *)
+          bind_serial := 0;
           let script = List.map parse_op (List.tl (split_ws case)) in
           let evfree = List.for_all event_free_op script in
           if evfree && wf_client script && not (client_okb fuel script (heap0 fixed))
